@@ -63,7 +63,7 @@ def run_one(m, args):
             r = subprocess.run(["go", "build", "./..."], cwd=root, env=ENV, capture_output=True, text=True)
             if r.returncode != 0:
                 return (m, "invalid", "does not build: " + r.stderr[-400:])
-            r = subprocess.run(["go", "test", "-vet=off", "-count=1", "./..."], cwd=root, env=ENV, capture_output=True, text=True)
+            r = subprocess.run(["go", "test", "-vet=off", "-count=1", "-timeout", "180s", "./..."], cwd=root, env=ENV, capture_output=True, text=True)
             if r.returncode != 0:
                 return (m, "invalid", "test suite fails: " + r.stdout[-600:])
         props = m["props"] if "props" in m else [m["prop"]]
